@@ -1,10 +1,10 @@
 """C07 - after `checkpoint update -p` nothing is changed; later edits re-flag exactly."""
 import gitscen
-THEOREMS = [("Properties.C07", "C07_holds")]
+THEOREMS = [("Properties.C07", "C07_holds"), ("AsFound.C07", "C07_as_found_refuted")]
 CORRESPONDENCE = "checkpoint update --pending then analyze on a real git repository == Model.Git.update_p / all_changes"
 LEVEL_NOTE = ("Coq theorem C07_holds: for every repository state and every previously stored pending map, the changes computed against the checkpoint that "
               "`update --pending` produces are empty (so no targets and an empty plan); in any later state a path whose content/absence differs from the commit and "
-              "from what was recorded is reported, and an unchanged tracked path is not. Needs SHA-256 injective and never ''. Tied by real-git scenarios: update -p "
+              "from its state at update time is reported, whatever an earlier update had recorded, and an unchanged tracked path is not. Needs SHA-256 injective and never ''. Tied by real-git scenarios: update -p "
               "in dirty states (staged, unstaged, untracked, deleted, moved), then novel creations/modifications/deletions, which must be exactly the reported "
               "changes and (through C01's model) exactly the reported targets, then a further update which must clear them.")
 TRUSTED = ["Coq 8.16.1 kernel; no axioms", "SHA-256 idealised (sha_inj, sha_nonempty)", "git modelled as in C02 and validated against real git by the same runs",
